@@ -20,6 +20,7 @@
    * a delivered ordering satisfies a required one exactly if the required one leads it (`ordering_satisfies_iff_prefix`),
      an input ordered by more keys is ordered by fewer (`sorted_on_prefix`), and what the sort enforcer hands to an
      operator is the input's rows in the order the operator requires (`enforcer_sound`);
+   * the probe of the hash join is the join condition: no pair through a NULL key (`hash_probe_is_equi_match`);
    * the answer does not depend on the statistics the choice among plans was made with (`stats_irrelevant`).
 
   Hypotheses are explicit and decidable: `wfStore` (stored rows have the width and the types of their table, NOT NULL
@@ -504,6 +505,74 @@ theorem orderingPrefixEitherWay_witness :
       ∧ (nlInner [1, 2] [1, 2] wJoined wV).length = 5
       ∧ (mergeInner [1, 2] [1, 2] 10 (enforce {} true wDelivered wRequired wJoined) wV).Perm (nlInner [1, 2] [1, 2] wJoined wV) := by
   refine ⟨by decide, by decide, by decide, by decide, by decide, by decide, by decide⟩
+
+/-! ## Physical join operators -/
+
+/-- an INT / BIGINT value or NULL -/
+def IntOrNull (v : Value) : Prop := v = .null ∨ ∃ i, v = .int i
+
+theorem eq3_int_or_null (x y : Value) (hx : IntOrNull x) (hy : IntOrNull y) :
+    cmp3 .eq x y = some true ↔ (x = y ∧ x ≠ .null) := by
+  rcases hx with rfl | ⟨i, rfl⟩ <;> rcases hy with rfl | ⟨j, rfl⟩
+  · simp [cmp3]
+  · simp [cmp3]
+  · simp [cmp3]
+  · simp [cmp3, CmpOp.holds, Value.cmp, cmpInt_eq]
+
+theorem keys_eq_iff_all_eq3 (xs ys : List Value) (hlen : xs.length = ys.length)
+    (hx : ∀ v ∈ xs, IntOrNull v) (hy : ∀ v ∈ ys, IntOrNull v) :
+    (xs = ys ∧ ∀ v ∈ xs, v ≠ .null) ↔ ∀ p ∈ xs.zip ys, cmp3 .eq p.1 p.2 = some true := by
+  induction xs generalizing ys with
+  | nil =>
+    cases ys with
+    | nil => simp
+    | cons y ys => simp at hlen
+  | cons x xs ih =>
+    cases ys with
+    | nil => simp at hlen
+    | cons y ys =>
+      have hlen' : xs.length = ys.length := by simpa using hlen
+      have hx' : ∀ v ∈ xs, IntOrNull v := fun v hv => hx v (List.mem_cons_of_mem _ hv)
+      have hy' : ∀ v ∈ ys, IntOrNull v := fun v hv => hy v (List.mem_cons_of_mem _ hv)
+      have h1 := eq3_int_or_null x y (hx x (by simp)) (hy y (by simp))
+      have h2 := ih ys hlen' hx' hy'
+      simp only [List.zip_cons_cons, List.mem_cons, forall_eq_or_imp, List.cons.injEq]
+      rw [h1, ← h2]
+      constructor
+      · rintro ⟨⟨hxy, hrest⟩, hnx, hn⟩; exact ⟨⟨hxy, hnx⟩, hrest, hn⟩
+      · rintro ⟨⟨hxy, hnx⟩, hrest, hn⟩; exact ⟨⟨hxy, hrest⟩, hnx, hn⟩
+
+/-- The probe of the hash join is the join condition: over INT / BIGINT keys (NULLs allowed) a left row finds a right
+    row under its key exactly if every `column = column` of the condition is TRUE for the pair — in particular never
+    through a NULL key. -/
+theorem hash_probe_is_equi_match (kl kr : List Nat) (hlen : kl.length = kr.length) (a b : Row)
+    (ha : ∀ v ∈ joinKey kl a, IntOrNull v) (hb : ∀ v ∈ joinKey kr b, IntOrNull v) :
+    hashMatch {} kl kr a b = equiMatch kl kr a b := by
+  have hl : (joinKey kl a).length = (joinKey kr b).length := by simp [joinKey, hlen]
+  have h := keys_eq_iff_all_eq3 (joinKey kl a) (joinKey kr b) hl ha hb
+  rw [Bool.eq_iff_iff]
+  simp only [hashMatch, equiMatch, Bool.false_or, Bool.and_eq_true, beq_iff_eq, Bool.not_eq_true', List.any_eq_false,
+    List.all_eq_true]
+  constructor
+  · rintro ⟨he, hn⟩; exact h.mp ⟨he, fun v hv hv0 => by simpa [hv0] using hn v hv⟩
+  · intro hall
+    obtain ⟨he, hn⟩ := h.mpr hall
+    exact ⟨he, fun v hv => by simpa using hn v hv⟩
+
+/-- a ⟕⟖ b on column 0 = column 0 with a NULL key on both sides -/
+def wJL : List Row := [[.int 1], [.null]]
+def wJR : List Row := [[.null], [.int 1], [.int 2]]
+
+/-- Shipped hash join (flag `hashJoinNullEqualsNull`; never chosen by the shipped cost model, reached by running the
+    operator directly): the left row with the NULL key is paired with the right row with the NULL key instead of both
+    being NULL-padded.  The repaired probe returns the rows of the join. -/
+theorem hashJoinNullEqualsNull_witness :
+    hashJoin { hashJoinNullEqualsNull := true } .full [0] [0] 1 1 wJL wJR
+        = [[.int 1, .int 1], [.null, .null], [.null, .int 2]]
+      ∧ joinPure .full (equiMatch [0] [0]) 1 1 wJL wJR
+        = [[.int 1, .int 1], [.null, .null], [.null, .null], [.null, .int 2]]
+      ∧ hashJoin {} .full [0] [0] 1 1 wJL wJR = joinPure .full (equiMatch [0] [0]) 1 1 wJL wJR := by
+  refine ⟨by decide, by decide, by decide⟩
 
 /-! ## The hypotheses are satisfiable -/
 
